@@ -1236,6 +1236,14 @@ fn mask_features(p: &Prog) -> Features {
 /// deviation switches that can matter for a program at all, most specific precondition first (when several
 /// switches explain an observation on their own, the first one is reported)
 fn static_switches(p: &Prog) -> Vec<usize> {
+    // All five deviations the switches describe were repaired in /repo (KNOWN_FINDINGS.txt `fixed:` lines for C04 and
+    // the mark-filtering-set entry of C05). None is a candidate any more: a return of one of those behaviours is
+    // reported as a plain mismatch. The computation below is kept for documentation and for re-enabling a switch
+    // should a new deviation have to be recorded.
+    const STALE_SWITCHES_ARE_CANDIDATES: bool = false;
+    if !STALE_SWITCHES_ARE_CANDIDATES {
+        return Vec::new();
+    }
     let ls = &p.gsub.lookups;
     let mut v = Vec::new();
     let unsorted = |l: &Vec<u16>| l.windows(2).any(|w| w[0] >= w[1]);
